@@ -17,7 +17,7 @@ import sys
 import time
 
 REPO = os.environ.get("VERIF_REPO", "/repo")
-VERIF = "/verif"
+VERIF = os.environ.get("VERIF_HOME", "/verif")
 
 
 def sh(cmd, **kw):
